@@ -553,8 +553,9 @@ func ruleFirstAnchorWins(c *Ctx, rule string) {
 			if !ok {
 				return
 			}
-			_, steps := c.accessPath(mu.Map)
-			if len(steps) == 0 || steps[len(steps)-1].Field != "resolvedInfo.anchors" {
+			// an anchor table: a map to the package's anchor entries (it may be held in a local variable)
+			mt, isMap := mu.Map.Type().Underlying().(*types.Map)
+			if !isMap || !c.isPkgNamed(mt.Elem(), "anchorInfo") {
 				return
 			}
 			n++
@@ -568,7 +569,7 @@ func ruleFirstAnchorWins(c *Ctx, rule string) {
 				if !ok || !(lk.Index == mu.Key || sharesSource(lk.Index, mu.Key)) {
 					continue
 				}
-				if _, st2 := c.accessPath(lk.X); len(st2) > 0 && st2[len(st2)-1].Field == "resolvedInfo.anchors" {
+				if lt, ok := lk.X.Type().Underlying().(*types.Map); ok && c.isPkgNamed(lt.Elem(), "anchorInfo") && (lk.X == mu.Map || sharesSource(lk.X, mu.Map) || sameFieldLoad(lk.X, mu.Map) || c.mentionsField(lk.X, "resolvedInfo.anchors", 4)) {
 					absent = true
 				}
 			}
